@@ -61,6 +61,14 @@ def shard(s):
         _, N, r = s
         for pat in spaces.run_length_patterns(N, r):
             _consume(acc, R.spell_rotating(pat, N), "rot")
+    elif kind == "SCAN":
+        from ..engines.history import fresh_world
+        fresh_world()
+        Ns = list(range(1, s[1] + 1))
+        for N in (Ns if s[2] == "up" else reversed(Ns)):
+            for pat in ("+" * N, ("+-" * N)[:N], "+" + "0" * (N - 1), ("++0--0" * N)[:N], "-" * (N // 2) + "0" + "+" * (N - N // 2 - 1)):
+                if len(pat) == N:
+                    _consume(acc, R.spell_rotating(pat, N), "rot")
     elif kind == "LONG":
         for pat in spaces.long_family(s[1]):
             _consume(acc, R.spell_rotating(pat, s[1]), "rot")
@@ -77,13 +85,15 @@ def run(tier, seed, t0):
     shards += [("R", N, 3) for N in range(RN, 4, -1)]
     LN = (64, 128, 200, 256) if tier == "quick" else (64, 127, 128, 129, 200, 256, 300, 400, 512, 700, 1000)
     shards += [("LONG", N) for N in LN]
+    SC = 300 if tier == "quick" else 600
+    shards = [("SCAN", SC, "up"), ("SCAN", SC, "down")] + shards
     acc = core.pmap(shard, shards)
     return core.finish(
         PROP, tier, seed, acc, t0,
         rule="every charge pattern over {+,-,0} of length 1..%d (K/E/G spelling), every pattern of length 1..%d in 16 "
              "covering spellings + 1 rotating spelling (all 20 residues occur), every pattern of length 5..%d with <=3 "
-             "runs, and a structured family of long patterns (homopolymers, 2/3-block, periodic) at lengths %s; each is one real SequenceParameters(seq).get_delta() call compared with exact Fraction evaluation "
-             "of the definition; non-trivial = reference delta > 0; outcomes = distinct reference delta values" % (L, L2, RN, list(LN)),
+             "runs, and a structured family of long patterns (homopolymers, 2/3-block, periodic) at lengths %s, and EVERY length 1..%d in strictly ascending and descending order in a freshly imported package (5 patterns per length); each is one real SequenceParameters(seq).get_delta() call compared with exact Fraction evaluation "
+             "of the definition; non-trivial = reference delta > 0; outcomes = distinct reference delta values" % (L, L2, RN, list(LN), SC),
         bounds={"L_base": L, "L_spellings": L2, "runlength_N": RN, "runs": 3, "tolerance_abs": TOL},
         assumptions=["reference model vmc/refmodel/charge.py states the property's definition; residue charge classes "
                      "from vmc/refmodel/tables.py (K,R +; D,E -)"])
